@@ -9,7 +9,7 @@ from ..cfg import own_exprs
 from ..facts import Fact, atoms, enumerate_paths
 from ..report import Ctx
 from ..suspend import node_suspension
-from .common import always_before, guard, increment_of, need, node_of, stmts_matching
+from .common import always_before, expand, guard, increment_of, need, node_of, single_defs, stmts_matching
 
 WAL = "happysimulator/components/storage/wal.py"
 LSM = "happysimulator/components/storage/lsm_tree.py"
@@ -177,7 +177,9 @@ def run(ctx: Ctx) -> None:
            "a flush that was suspended while the tree crashed notices it (crash epoch read before, compared after the suspension) and neither truncates the log nor touches the lists")
     crs = prog.func(LSM, "LSMTree.crash")
     inc = [s for s in walk_stmts(crs.node.body) if increment_of(s, "self._crash_count") == 1]
-    newm = [s for s in walk_stmts(crs.node.body) if isinstance(s, ast.Assign) and path_of(s.targets[0]) == "self._memtable" and isinstance(s.value, ast.Call) and path_of(s.value.func) == "Memtable"]
+    sd_c = single_defs(crs)
+    newm = [s for s in walk_stmts(crs.node.body) if isinstance(s, ast.Assign) and path_of(s.targets[0]) == "self._memtable"
+            and isinstance(expand(s.value, sd_c), ast.Call) and path_of(expand(s.value, sd_c).func) == "Memtable"]  # built in place or via a once-bound local
     clr = [c for c in calls_in(crs.node) if path_of(c.func) == "self._immutable_memtables.clear"]
     wc = [c for c in calls_in(crs.node) if path_of(c.func) == "self._wal.crash"]
     ctx.ob("C15-2", "G2", crs, None, len(inc) == 1 and len(newm) == 1 and len(clr) == 1 and len(wc) == 1,
